@@ -337,7 +337,7 @@ class Sim:
         ev = {"i": i_step, "op": op, "c": st.get("c")}
         before = self.world_specs()
         n_before = len(self.clients)
-        if op in ("set_params", "clone", "reset", "construct", "mutate"):
+        if op in ("set_params", "clone", "reset", "construct", "mutate", "copy"):
             getattr(self, "op_" + op)(st, ev, i_step)
         elif st.get("c") is None or st["c"] >= len(self.clients):
             ev["noop"] = True
@@ -496,6 +496,30 @@ class Sim:
         self.clients[i] = ncl
         self.env[name] = new
         self.sig.append((ncl.kind, "clone", None, None))
+
+    def op_copy(self, st, ev, i_step):
+        """The client continues with a deep copy / a pickle round trip of its object: a
+        copy in the fitted state, which must behave exactly like the original (the
+        model state of the client carries over; shared scorers become private)."""
+        import pickle
+
+        i = st["c"]
+        if i >= len(self.clients):
+            ev["noop"] = True
+            return
+        cl = self.clients[i]
+        try:
+            new = copy.deepcopy(cl.obj) if st.get("how", "deepcopy") == "deepcopy" else pickle.loads(pickle.dumps(cl.obj))
+        except Exception as e:  # noqa: BLE001
+            ev["res"] = "exc:" + type(e).__name__
+            return
+        ev["res"] = "ok"
+        cl.obj = new
+        self.env[cl.name] = new
+        # a scorer client that had been refitted by sharers keeps its ambiguity; nothing
+        # else changes in the model
+        self.probe("continued_with_copy")
+        self.sig.append((cl.kind, "copy", st.get("how", "deepcopy"), None))
 
     def op_reset(self, st, ev, i_step):
         i = st["c"]
